@@ -19,6 +19,8 @@ type State struct {
 	defers []*deferRec
 	stale  map[*Obj]string // array objects that must not be touched any more (append realloc model)
 	events []string
+	epoch  string // non-empty after a havoc-all: lazily materialised content gets fresh names
+	viewImg map[string]*Term
 }
 
 type deferRec struct {
@@ -35,12 +37,19 @@ func (st *State) clone() *State {
 		old:    st.old,
 		trace:  st.trace[:len(st.trace):len(st.trace)],
 		defers: st.defers[:len(st.defers):len(st.defers)],
+		epoch:  st.epoch,
 	}
 	for k, v := range st.vals {
 		n.vals[k] = v
 	}
 	for k, v := range st.heap {
 		n.heap[k] = v
+	}
+	if st.viewImg != nil {
+		n.viewImg = map[string]*Term{}
+		for k, v := range st.viewImg {
+			n.viewImg[k] = v
+		}
 	}
 	if st.stale != nil {
 		n.stale = map[*Obj]string{}
@@ -186,8 +195,10 @@ type Exec struct {
 	objCount int
 	lazyObjs map[string]*Obj
 	Obls     []*Obligation
+	Covers   []*Cover
 	Undecided []string
 	Assumptions map[string]bool
+	StickyUsed  map[string]bool
 	curFn    *FnRun
 	MaxPaths int
 	Verbose  bool
@@ -196,7 +207,7 @@ type Exec struct {
 
 func NewExec(p *Program, db *SpecDB) (*Exec, error) {
 	ex := &Exec{P: p, DB: db, UFs: map[string]*UFSig{}, varFacts: map[string]*Term{}, lazyObjs: map[string]*Obj{},
-		Assumptions: map[string]bool{}, MaxPaths: 4096, globals: map[*ssa.Global]*Obj{}}
+		Assumptions: map[string]bool{}, StickyUsed: map[string]bool{}, MaxPaths: 4096, globals: map[*ssa.Global]*Obj{}}
 	if err := ex.declareSpecFuncs(); err != nil {
 		return nil, err
 	}
@@ -236,6 +247,14 @@ func (ex *Exec) newVar(name string, s Sort, t types.Type) *Term {
 
 func (ex *Exec) addVarFact(v *Term, f *Term) {
 	if old, ok := ex.varFacts[v.Name]; ok {
+		for _, c := range conjuncts(old) {
+			if sameTerm(c, f) {
+				return
+			}
+		}
+		if sameTerm(old, f) {
+			return
+		}
 		ex.varFacts[v.Name] = And(old, f)
 	} else {
 		ex.varFacts[v.Name] = f
@@ -284,10 +303,13 @@ func (ex *Exec) freshVal(t types.Type, name string) Val {
 		return &PtrV{Nil: Var(name+".isnil", SBool), Obj: o, Elem: u.Elem()}
 	case *types.Slice:
 		o := ex.namedObj(name+".arr", types.NewSlice(u.Elem()))
+		o.IsArr = true
 		l := ex.newVar(name+".len", SInt, nil)
 		c := ex.newVar(name+".cap", SInt, nil)
 		nl := Var(name+".isnil", SBool)
-		ex.addVarFact(l, And(Le(Int(0), l), Le(l, c), Le(c, IntB(Pow2(62))), Implies(nl, Eq(c, Int(0)))))
+		f := And(Le(Int(0), l), Le(l, c), Le(c, IntB(Pow2(47))), Implies(nl, Eq(c, Int(0))))
+		ex.addVarFact(l, f)
+		ex.addVarFact(c, f)
 		return &SliceV{Nil: nl, Arr: o, Off: Int(0), Len: l, Cap: c, Elem: u.Elem()}
 	case *types.Array:
 		return &ArrayV{Elem: u.Elem(), N: u.Len(), Data: ex.freshArrData(u.Elem(), name)}
@@ -311,7 +333,12 @@ func (ex *Exec) freshVal(t types.Type, name string) Val {
 
 func (ex *Exec) freshArrData(elem types.Type, name string) ArrData {
 	if s, ok := scalarSort(elem); ok {
-		return Var(name+".elems", ArrSort(SInt, s))
+		a := Var(name+".elems", ArrSort(SInt, s))
+		if lo, hi, ok := intRange(elem); ok {
+			k := Var("k!r", SInt)
+			ex.varFacts[a.Name] = Forall([]*Term{k}, And(Le(IntB(lo), Select(a, k)), Le(Select(a, k), IntB(hi))), Select(a, k))
+		}
+		return a
 	}
 	switch u := under(elem).(type) {
 	case *types.Struct:
@@ -461,11 +488,19 @@ func (ex *Exec) heapGet(st *State, o *Obj) Val {
 	}
 	// lazily materialise deterministic initial content
 	var v Val
-	if sl, ok := o.T.(*types.Slice); ok && strings.HasSuffix(o.Name, ".arr") {
-		v = &ArrayV{Elem: sl.Elem(), N: -1, Data: ex.freshArrData(sl.Elem(), strings.TrimSuffix(o.Name, ".arr"))}
-	} else {
-		v = ex.freshVal(o.T, strings.TrimSuffix(o.Name, "^"))
+	if st.epoch != "" {
+		v = ex.materialise(o, o.Name+"@"+st.epoch)
+		st.heap[o] = v
+		if _, isPtrTarget := v.(*StructV); isPtrTarget {
+			ex.assumeValid(st, &PtrV{Nil: tFalse, Obj: o, Elem: o.T}, types.NewPointer(o.T), 0)
+		}
+		return v
 	}
+	nm := o.Name
+	for _, suf := range []string{".dyn", ".arr", "^"} {
+		nm = strings.TrimSuffix(nm, suf)
+	}
+	v = ex.materialise(o, nm)
 	st.heap[o] = v
 	return v
 }
@@ -477,6 +512,17 @@ func (ex *Exec) force(st *State, v Val) Val {
 		return nv
 	}
 	return v
+}
+
+func (ex *Exec) materialise(o *Obj, name string) Val {
+	if o.IsArr {
+		el := o.T.(*types.Slice).Elem()
+		return &ArrayV{Elem: el, N: -1, Data: ex.freshArrData(el, name)}
+	}
+	if _, isIface := under(o.T).(*types.Interface); isIface && strings.HasSuffix(o.Name, ".dyn") {
+		return ex.ghostStruct(o.T, name)
+	}
+	return ex.freshVal(o.T, name)
 }
 
 // load reads the value at a pointer.
